@@ -68,7 +68,7 @@ fn set_param(req: &mut Req, f: impl FnOnce(&mut Vec<(String, Option<String>)>)) 
 fn mutate(c: &mut Case<'_>, req: &mut Req, signed: &[String]) -> Option<String> {
     let kinds = [
         "param-value", "param-name-case", "param-removed", "param-duplicated", "param-added", "method", "path-byte", "signed-header-value", "signature-digit", "expires-value", "date-value", "credential-key", "credential-scope-date",
-        "signed-headers-list", "algorithm", "plain-param-value", "signature-length", "amz-param-added", "unsigned-header-added",
+        "signed-headers-list", "algorithm", "plain-param-value", "signature-length", "amz-param-added", "unsigned-header-added", "signed-header-line-added",
     ];
     let kind = *c.t.pick(&kinds);
     let names = ["X-Amz-Algorithm", "X-Amz-Credential", "X-Amz-Date", "X-Amz-Expires", "X-Amz-SignedHeaders", "X-Amz-Signature"];
@@ -107,6 +107,20 @@ fn mutate(c: &mut Case<'_>, req: &mut Req, signed: &[String]) -> Option<String> 
                     p.push((k, v2));
                 }
             });
+        }
+        "signed-header-line-added" => {
+            // one more line under the name of a signed header: the canonical value becomes `v,w`, which nobody signed
+            let cands: Vec<usize> = req.headers.iter().enumerate().filter(|(_, (n, _))| signed.contains(n) && n != "host").map(|(i, _)| i).collect();
+            if cands.is_empty() {
+                return None;
+            }
+            let i = *c.t.pick(&cands);
+            let mut line = req.headers[i].clone();
+            if c.t.bool() {
+                line.1 = format!("{}x", line.1);
+            }
+            let at = if c.t.bool() { i + 1 } else { req.headers.len() };
+            req.headers.insert(at, line);
         }
         "signature-length" => {
             let cut = c.t.below(64);
@@ -321,9 +335,10 @@ fn judge(c: &mut Case<'_>, req: &Req, class: &str, source: &str) -> CaseResult {
 
 fn reference_case(c: &mut Case<'_>) -> CaseResult {
     let base = gen_base(c, false);
-    if base.feat.repeated_header || base.feat.inner_ws {
-        // header canonicalisation findings are owned by C05
-        return Ok(());
+    // (signed headers with inner white space runs and names repeated on several lines are part of the domain: the
+    // canonicalisation findings C05 once owned here are repaired)
+    if base.feat.repeated_header {
+        c.label("signed-header-on-several-lines");
     }
     let expires: u64 = *c.t.pick(&[3600u64, 1, 2, 59, 60, 600, 86_400, 604_800, 604_801, 1 << 31, u32::MAX as u64, 900]);
     // signing time relative to the real clock
